@@ -222,7 +222,7 @@ pub fn exec(func: &str, a: &mut Args) -> String {
         "bb3" => { let p = d3::iso(a); let r1 = a.f(); let r2 = a.f(); let pr = a.f(); let mut m = man3(a);
             crate::p3::query::details::contact_manifold_ball_ball(&p, &crate::p3::shape::Ball::new(r1), &crate::p3::shape::Ball::new(r2), pr, &mut m);
             fman3(&m) }
-        "seq3" => seq3(a),
+        "seq3" | "seq3o" => seq3(a),
         "seq2" => seq2(a),
         "comp3" => comp3(a, false),
         "tm3" => comp3(a, true),
@@ -582,6 +582,10 @@ pub fn gen(r: &mut Rng, thorough: bool) -> Vec<(String, String)> {
     for it in 0..90 * k {
         let lat = it % 2 == 0;
         for kind in 0..5 { v.push(gen_seq2(r, lat, kind, 20)); }
+    }
+    for it in 0..60 * k {
+        let lat = it % 2 == 0;
+        for kind in 9..11 { let (_, a) = gen_seq3(r, lat, kind, 20); v.push(("seq3o".into(), a)); }
     }
     v
 }
